@@ -76,8 +76,12 @@ claim("C18",
 claim("C12",
       "BBC: fragment header bit layout and accessors; NewIncomingTransmission/ReadFragment accept exactly the successor sequence number (mod 16) of an unfinished transmission with matching id and no start bit and then "
       "append exactly the fragment's bytes, any other fragment is an error that changes nothing; WriteFragment cuts at most MTU-2 bytes, start mark on the first and end mark exactly on the last fragment, consecutive "
-      "sequence numbers, payload partition (quantified over all bytes); the connector forgets a transmission and returns the error when a fragment does not continue it.",
-      "MTCP framing, Connector.handleIncomingFragment (defer + channels) and Connector.Send loop are not yet under contract; xz compression, modem transport and concurrency are outside this family.",
+      "sequence numbers, payload partition (quantified over all bytes); the connector forgets a transmission and returns the error when a fragment does not continue it; "
+      "Connector.handleIncomingFragment: an error means exactly one failure fragment is broadcast and no bundle is reported, no error means none, a received failure fragment only notifies the sending side, at most one report per fragment. "
+      "MTCP: MTCPClient.Send returns an error exactly when it reports the peer as gone (once), and returns an error whenever the connection is broken (every direct write fails); "
+      "MTCPServer.handleSender reports a bundle only for a non-zero-length frame that parsed, never for keep-alive/probe frames.",
+      "The MTCP byte-level round trip (sequence of bundles in = same bundles out) needs the bundle-level decode-of-encode theorem and is not decided; Connector.Send loop not under contract; bufio/bytes/net internals are frame "
+      "assumptions (contracts/deps/stdlib_*.spec); xz compression, modem transport and concurrency (keep-alive vs. Send interleavings) are outside this family.",
       "DESIGN.md §6 C12")
 
 claim("C13",
